@@ -12,7 +12,7 @@
 //	-prop c03   timing / pairing scripts (offset, delays, drop, duplicate, stale, basic/interleaved)
 //	-prop c05   acceptance scripts (random bytes, single-field mutants, foreign sources, origin
 //	            echo per request mode, NTS, SCION packet authenticator with a key available)
-//	-prop c13   the SCION client with DRKey authentication enabled only (client clause of C13)
+//	-prop c13   the SCION client with DRKey authentication enabled only (client clause of C13), incl. re-framed datagrams
 //	-prop c11   the NTS clients' cookie pool along histories of exchanges with unauthenticated
 //	            datagrams in front of / instead of the genuine reply (client clauses of C11; driver drv_c11)
 //	-prop c20   destination of the NTS-protected request for every kind of server / port an
@@ -124,6 +124,8 @@ func gen(c *lib.Ctx) {
 		genWrapIP(c)
 		genA4Scenario(c)
 		genC03SCION(c)
+		genNoStamp(c, "c03nostamp-ip", false)
+		genNoStamp(c, "c03nostamp-scion", true)
 	case "c05":
 		genC05IP(c)
 		genWrapIP(c)
@@ -137,10 +139,28 @@ func gen(c *lib.Ctx) {
 		genAddr(c, "c05addr")
 		genTsWindow(c, "c05tswin")
 		genNTSDest(c, "c20ntsdest")
+		genWrapCtx(c, "c05wrapctx-ip", false)
+		genWrapCtx(c, "c05wrapctx-scion", true)
+		genNTSRetry(c, "c05ntsretry-ip", false)
+		genNTSRetry(c, "c05ntsretry-scion", true)
+		genReframe(c, "c05reframe", false)
+		genNoStamp(c, "c05nostamp-ip", false)
+		genNoStamp(c, "c05nostamp-scion", true)
+	case "reframe": // development
+		genReframe(c, "c05reframe", false)
+	case "retry": // development
+		genNTSRetry(c, "c05ntsretry-ip", false)
+		genNTSRetry(c, "c05ntsretry-scion", true)
+	case "flow": // development: the streams of gen_flow.go only
+		genNoStamp(c, "c03nostamp-ip", false)
+		genNoStamp(c, "c03nostamp-scion", true)
+		genWrapCtx(c, "c05wrapctx-ip", false)
+		genWrapCtx(c, "c05wrapctx-scion", true)
 	case "c20":
 		genNTSDest(c, "c20ntsdest")
 	case "c13":
 		genSPAO(c, "c13spao")
+		genReframe(c, "c13reframe", true)
 	case "c11":
 		genPool(c, "c11pool-ip", false)
 		genPool(c, "c11pool-scion", true)
